@@ -122,13 +122,13 @@ def rule_rt4(A: Analysis, rep):
         t = "%s.task" % F.lt
         want = {"identifier": t + ".identifier", "task": t, "run": t + ".raw_run", "args": t + ".args", "options": t + ".options",
                 "working_path": t + ".get_working_path(self._ctx)", "deps_output_paths": t + ".get_deps_output_paths(self._ctx)"}
-        got = {k: norm(v) for k, v in A.kwmap(call).items()}
+        got = {k: A.xtext(v, F.fi, stop=[F.lt]) for k, v in A.kwmap(call).items()}
         diff = {k: got.get(k) for k, v in want.items() if got.get(k) != v}
         op = A.kw(call, "output_path")
         opv = A.xtext(op, F.fi) if op is not None else None
         if isinstance(op, ast.Name):
             pd = A.preceding_def(cn.ast, op.id)
-            opv = norm(pd) if pd is not None else opv
+            opv = A.xtext(pd, F.fi, stop=[F.lt]) if pd is not None else opv
         ok_out = opv == t + ".get_output_path(self._ctx)"
         rep.check(not diff and ok_out, "RT4", "planner passes the task's own run/args/options/paths", call, "", "RunTaskExecutable constructed with %s, output_path=%s" % (diff, opv))
     gw = A.fn("task_types.base.TaskType.get_working_path")
